@@ -1,5 +1,6 @@
 pub mod capi;
 pub mod echo;
+pub mod edit;
 pub mod enc;
 pub mod esc;
 pub mod hash;
@@ -19,6 +20,7 @@ pub fn find(name: &str) -> Option<LaneFn> {
     Some(match name {
         "capi" => capi::run,
         "echo" => echo::run,
+        "edit" => edit::run,
         "enc" => enc::run,
         "esc" => esc::run,
         "hash" => hash::run,
